@@ -497,6 +497,33 @@ func (x *c20Exec) finish() {
 	synctest.Wait()
 }
 
+// drainCsv (only as a sub-check of C07, never part of C20's own verdict): from the state reached,
+// with an open CSV registration and the watched output unspent, every service answers correctly
+// from now on and the chain grows past CSV maturity; the watcher must then report maturity -
+// otherwise the maker's refund is never triggered.
+func (x *c20Exec) drainCsv() {
+	if x.f.Kind != "csv" || !x.regd || len(x.reports) > 0 || x.internal != "" {
+		return
+	}
+	t := x.truth()
+	if !t.Exists || t.Spent {
+		return
+	}
+	x.w.Faults = map[string][]int{}
+	x.c.StaleOnce = false
+	x.stalePrev = false
+	x.races = nil
+	x.apply(mc.Event{Name: "jump", Arg: "csv"})
+	for i := 0; i < 3 && len(x.reports) == 0; i++ {
+		x.apply(mc.Event{Name: "block", Arg: "empty"})
+		x.apply(mc.Event{Name: "wait"})
+	}
+	t = x.truth()
+	if len(x.reports) == 0 && t.Exists && !t.Spent && t.Height != 0 && uint32(t.depth()) >= x.CSV {
+		x.add("csv_maturity_never_reported_after_services_recovered", fmt.Sprintf("family %s: CSV registration open, output unspent and %d deep (csv %d), all services healthy for the last %d blocks: no maturity report", x.f.Name, t.depth(), x.CSV, 3))
+	}
+}
+
 func (x *c20Exec) pendingFaults() bool {
 	return x.w.FaultKey() != "F[] P[]" || x.c.StaleOnce || x.stalePrev || len(x.races) > 0
 }
@@ -774,6 +801,13 @@ func c20Runner(t *testing.T, f *c20Fam) mc.Runner {
 		func() {
 			defer func() {
 				if r := recover(); r != nil {
+					if msg := fmt.Sprint(r); strings.Contains(msg, "blocked goroutines remain") && res.Key != "" {
+						// the execution itself completed and was judged; a goroutine of the watcher stayed
+						// blocked after stop() (it waits on something that ignores the context).  Counted,
+						// and the verdicts of the execution stand.
+						res.Outcome += ",info_watcher_goroutine_blocked_after_stop"
+						return
+					}
 					res.Internal = fmt.Sprintf("harness panic: %v", r)
 				}
 			}()
@@ -791,8 +825,11 @@ func c20Runner(t *testing.T, f *c20Fam) mc.Runner {
 				if len(x.reports) < 2 {
 					res.Enabled = x.enabled()
 				}
-				res.Violations = x.viols
 				res.Outcome = x.outcome()
+				if os.Getenv("VERIF_C20_DRAIN") != "" {
+					x.drainCsv()
+				}
+				res.Violations = x.viols
 				res.Internal = x.internal
 				x.finish()
 			})
@@ -1542,6 +1579,15 @@ func TestC20(t *testing.T) {
 		}
 		fams = keep
 	}
+	if skip := os.Getenv("VERIF_C20_SKIP"); skip != "" {
+		var keep []c20Fam
+		for _, f := range fams {
+			if !strings.Contains(f.Name, skip) {
+				keep = append(keep, f)
+			}
+		}
+		fams = keep
+	}
 	if p := os.Getenv("VERIF_C20_REPLAY"); p != "" {
 		c20Replay(t, p)
 		return
@@ -1655,6 +1701,14 @@ func TestC20(t *testing.T) {
 	}
 	rep.Violations = stable
 	rep.Extra["families"] = fsum
+	if exp := os.Getenv("VERIF_C20_EXPORT"); exp != "" {
+		// another property's check (C01: the depth clause) uses this exploration as a sub-check
+		b, _ := json.Marshal(map[string]any{"violations": stable, "states": rep.States, "executions": rep.Transitions, "families": fsum, "internal": rep.Internal, "exhaustive": rep.Exhaustive})
+		if err := os.WriteFile(exp, b, 0o644); err != nil {
+			t.Fatal(err)
+		}
+		return
+	}
 	rep.Rule = "breadth-first search by replay, with state deduplication on a canonical key (tip relative to base, status/depth of the watched tx and of its spender, number of reorgs, pending RPC faults / stale answer / armed mid-call change, registration made, callbacks delivered, what the watcher has been told so far), of ALL histories up to the depth bound over the event alphabet, one family per watcher x chain x {confirmation, csv registration} x {tx appears after startingHeight, tx confirmed before startingHeight}; registration is itself an event, so every registration time (before the tx exists, in mempool, confirmed, deep, after the window closed) is covered. Every execution runs the REAL watcher (txwatcher.BlockchainRpcTxWatcher with both polling loops under virtual time / lwk electrumTxWatcher + electrum observers / lnd.TxWatcher) on a fresh simulated chain in its own synctest bubble. Oracle = property statement evaluated on the chain's ground truth recorded inside each callback: success => tx in best chain, depth >= required, tip < start+window, raw tx is the tx; csv => depth >= csv; at most one report per registration; a new tip >= start+window announced with no fault pending while the registration is open must produce a (failure) callback. Race families: the chain moves right after a chosen RPC answer; reports are then judged against the chain as of the watcher's last read (a later change cannot be noticed by any watcher and is only counted). Liveness (a true confirmation is eventually reported) is not part of C20 and only counted (info_* classes)."
 	rep.Alphabets = map[string]any{
 		"events":        []string{"reg", "submit", "spend", "block", "block(empty)", "reorg(keep|drop,1|2)", "jump(win-1|win|csv-1|csv; lnd: half-1|half|d143|d144)", "fault(<method>,k-th next call)", "stale (gettxout answers once with the previous best block hash)", "stale(prev) (gettxout answers once as of before the last chain event)", "wait (rpc: 1 s)", "notify (duplicate announcement of the tip: electrum, lnd)", "resub (electrum: 37 s re-subscription)", "race(<method>#k><block|block2|reorg1drop|reorg1keep>) (race families)"},
